@@ -906,6 +906,19 @@ def relational_cases(rng, count, tid):
               lambda: Pj @ rhoP @ Pj / np.real(np.trace(Pj @ rhoP)), rep="ket", **ctxf)
         X.rel("MeasureTextbook", "projector", lambda: qu.projector(qu.qu(Aobs), eigenvalue=ev), lambda: Pj, **ctxf)
 
+        # the documented `tol` ("the tolerance within which to group eigenspaces"): an observable whose +-1 eigenspaces are
+        # split by ~1e-9, measured with tol=1e-6 - the whole cluster is one outcome, state and normalisation use the same group
+        split = spec + 1e-9 * np.arange(D) / D
+        Asplit = (V * split) @ V.conj().T
+        Asplit = (Asplit + Asplit.conj().T) / 2
+        X.rel("MeasureTextbook", "measure", lambda: qu.measure(r, qu.qu(Asplit), eigenvalue=ev, tol=1e-6)[1],
+              lambda: Pj @ rho @ Pj / np.real(np.trace(Pj @ rho)), variant="tol", **ctxf)
+        X.rel("MeasureTextbook", "measure", lambda: U.np_dop(np.asarray(qu.measure(k, qu.qu(Asplit), eigenvalue=ev, tol=1e-6)[1])),
+              lambda: Pj @ rhoP @ Pj / np.real(np.trace(Pj @ rhoP)), rep="ket", variant="tol", **ctxf)
+        X.rel("MeasureTextbook", "measure", lambda: qu.measure(r, (split, qu.qu(V)), eigenvalue=ev, tol=1e-6)[1],
+              lambda: Pj @ rho @ Pj / np.real(np.trace(Pj @ rho)), variant="tol-prediag", **ctxf)
+        X.rel("MeasureTextbook", "projector", lambda: qu.projector(qu.qu(Asplit), eigenvalue=ev, tol=1e-6), lambda: Pj, variant="tol", **ctxf)
+
         # ---- operators supplied by the caller: correlation with non-symmetric complex (Hermitian and not) operators
         ia, ib = [int(x) for x in rng.permutation(L)[:2]]
         for herm in (True, False):
